@@ -86,8 +86,8 @@ pub struct Env {
     pub addr_unified: Address,
     pub addr_transparent: Address,
     pub addr_tex: Address,
-    /// Start-state snapshots: (name, snapshot, scanned_from, tip)
-    pub starts: Vec<(&'static str, Snapshot, u32, u32)>,
+    /// Start-state snapshots: (name, snapshot, unscanned gap, tip)
+    pub starts: Vec<(&'static str, Snapshot, Option<(u32, u32)>, u32)>,
 }
 
 pub const OWNER_X: LockOwner = LockOwner::new([0x11; 32]);
@@ -317,15 +317,16 @@ impl Env {
         // start state 0: everything scanned in order
         let mut w = db::new_wallet(&env.u, uni::RETENTION, false);
         env.scan(&mut w, &base, uni::F, uni::T0, true).expect("start state full");
-        env.starts.push(("full", db::snapshot(w.db.conn()), uni::F, uni::T0));
-        // start state 1: tip known, only GAP_FROM..=T0 scanned (blocks F..GAP_FROM-1 missing)
+        env.starts.push(("full", db::snapshot(w.db.conn()), None, uni::T0));
+        // start state 1: tip known, the newest blocks scanned first, then the oldest; GAP unscanned
         let mut wg = db::new_wallet(&env.u, uni::RETENTION, false);
-        env.scan(&mut wg, &base, uni::GAP_FROM, uni::T0, true).expect("start state gap");
-        env.starts.push(("gap", db::snapshot(wg.db.conn()), uni::GAP_FROM, uni::T0));
+        env.scan(&mut wg, &base, uni::GAP.1 + 1, uni::T0, true).expect("start state gap (recent part)");
+        env.scan(&mut wg, &base, uni::F, uni::GAP.0 - 1, false).expect("start state gap (old part)");
+        env.starts.push(("gap", db::snapshot(wg.db.conn()), Some(uni::GAP), uni::T0));
         // start state 2: scanned to SHORT_TIP only (target height below NU6.3 activation)
         let mut ws = db::new_wallet(&env.u, uni::RETENTION, false);
         env.scan(&mut ws, &base, uni::F, uni::SHORT_TIP, true).expect("start state short");
-        env.starts.push(("short", db::snapshot(ws.db.conn()), uni::F, uni::SHORT_TIP));
+        env.starts.push(("short", db::snapshot(ws.db.conn()), None, uni::SHORT_TIP));
 
         // Pending transaction 0: built at target T0+1, spends what a 30_000 payment selects.
         let p0 = build_pending(&env, &mut w, uni::T0 + 1, 30_000, &[])?;
